@@ -112,6 +112,24 @@ def run_tlc(workdir, module, cfg, env=None, workers=None, timeout=1800, extra=()
     return res
 
 
+def run_apalache(workdir, module, cinit, inv, timeout=600):
+    """apalache-mc check --length=0 --inv=<inv> --cinit=<cinit>; returns "ok", "violated" or raises Inconclusive."""
+    d = os.path.join(workdir, "apalache-" + cinit)
+    os.makedirs(d, exist_ok=True)
+    shutil.copy(os.path.join(SPEC, "apalache", module), d)
+    cmd = ["apalache-mc", "check", "--length=0", "--inv=" + inv, "--cinit=" + cinit, "--out-dir=" + os.path.join(d, "out"), module]
+    try:
+        p = subprocess.run(cmd, cwd=d, capture_output=True, text=True, timeout=timeout)
+    except subprocess.TimeoutExpired:
+        raise Inconclusive("apalache timed out on %s/%s" % (module, cinit))
+    out = p.stdout + p.stderr
+    if "The outcome is: NoError" in out:
+        return "ok"
+    if "The outcome is: Error" in out and "invariant" in out and "violated" in out:
+        return "violated"
+    raise Inconclusive("apalache gave no verdict on %s/%s: %s" % (module, cinit, out[-1500:]))
+
+
 def run_harness(binary, family, scn_file, out_file, seed, timeout=3600, workers=None, env=None):
     cmd = [binary, "-family", family, "-in", scn_file, "-out", out_file, "-seed", str(seed)]
     if workers:
